@@ -68,6 +68,24 @@ def read(g) -> Tab:
     return Tab(k, lo, up, known.tobytes() + lo.tobytes() + up.tobytes())
 
 
+BAD_VALUE = "not a number"
+
+
+class BadCallAccepted(Exception):
+    """The library did not reject the deliberately invalid call: the harness has no model for what it did instead."""
+
+
+def rejects_bad_values(n: int, comp: str) -> bool:
+    g = new_game(n, comp)
+    try:
+        g.reveal_value(BAD_VALUE, coal((1 << n) - 2))
+    except (ValueError, TypeError):
+        return True
+    except Exception:  # noqa: BLE001
+        return False
+    return False
+
+
 def apply_op(g, v, op, v2=None) -> None:
     """Execute one public operation. op = ("reveal", s) | ("unreveal", s) | ("reset", kmask) | ("compute",) |
     ("set", s) | ("unset", s) | ("reveal_alt", s) | ("set_alt", s)  (the *_alt forms use the alternative value v2[s])."""
@@ -98,6 +116,13 @@ def apply_op(g, v, op, v2=None) -> None:
         g.set_lower_bounds(np.full(N, -7.5))
         g.set_upper_bounds(np.full(N, 9.25))
         return
+    if kind in ("bad_reveal", "bad_set"):
+        # a call the library rejects (a value no float cell can hold); the caller catches the exception and keeps using the object
+        try:
+            (g.reveal_value if kind == "bad_reveal" else g.set_value)(BAD_VALUE, coal(op[1]))
+        except (ValueError, TypeError):
+            return
+        raise BadCallAccepted(f"{kind}: the library accepted {BAD_VALUE!r} as a coalition value")
     if kind == "compute":
         g.compute_bounds()
     elif kind == "reveal":
@@ -149,6 +174,7 @@ class LatticeRun:
         self.ex = tuple(explor if explor is not None else explorable_ids(n))
         self.T: dict[int, Tab] = {}
         self.T2: dict[tuple, Tab] = {}
+        self.bad_calls = None    # dirty runs contain calls the library rejects (decided by a probe on a scratch object)
         self.scribble = True     # dirty runs may overwrite the stored bounds through the public bulk bound setters
         self.alt_ops = True      # histories use the *_alt operations whenever v2 is set
         self.v2 = None           # optional alternative values: histories may re-reveal a coalition with a DIFFERENT value
@@ -532,6 +558,16 @@ class LatticeRun:
         if self.scribble:
             ops.append(("scribble",))
             ops.append(("observe",))
+        if self.bad_calls is None:
+            self.bad_calls = rejects_bad_values(self.n, self.comp)
+        if self.bad_calls:
+            # rejected calls (the library raises, the caller carries on): one on the lowest unknown, one on the lowest known explorable coalition
+            unk = [s for s in self.ex if not k >> s & 1]
+            kn = [s for s in self.ex if k >> s & 1]
+            if unk:
+                ops.append(("bad_reveal", unk[0]))
+            if kn:
+                ops.append(("bad_set", kn[0]))
         return ops
 
 
